@@ -56,8 +56,8 @@ Section Envelope.
   Notation valid_envelope := (valid_envelope U has_codec cenc cdec qerr newref).
   Notation expected_out := (expected_out U).
 
-  Lemma ref_strs_valid r : valid_ref r -> ref_strs r = MOk (strs_of r) /\ len32 (fst (strs_of r)) /\ len32 (snd (strs_of r)).
-  Proof. destruct r; cbn; intros H; try contradiction; repeat split; try apply H; vm_compute; reflexivity. Qed.
+  Lemma strs_valid r : valid_ref r -> len32 (fst (strs_of r)) /\ len32 (snd (strs_of r)).
+  Proof. destruct r; cbn; intros H; try apply H; split; vm_compute; reflexivity. Qed.
 
   (** system flag, sender, receiver and payload survive; absent refs come back as empty strings *)
   Theorem envelope_rt (e : envelope U) rest :
@@ -66,7 +66,7 @@ Section Envelope.
   Proof.
     destruct e as [sys s r m]. unfold Envelope.valid_envelope. cbn [e_system e_sender e_receiver e_msg].
     intros (Vs & Vr & Tm & Vm) Hfit.
-    destruct (ref_strs_valid s Vs) as (Es & Ls1 & Ls2). destruct (ref_strs_valid r Vr) as (Er & Lr1 & Lr2).
+    destruct (strs_valid s Vs) as (Ls1 & Ls2). destruct (strs_valid r Vr) as (Lr1 & Lr2).
     pose proof (rt_Q U has_codec cenc cdec qerr newref m Tm Vm) as HQ. unfold Q in HQ.
     destruct (kind_of U m) as [k|] eqn:Ek.
     - destruct HQ as (b & Hb & Hd). assert (Hlb : len32 b) by (apply Hfit; exact Hb).
@@ -75,7 +75,7 @@ Section Envelope.
       split.
       + unfold Envelope.enc_envelope. cbn [e_system e_sender e_receiver e_msg].
         destruct m; try (cbn in Ek; discriminate); cbn [kind_of] in Ek |- *; injection Ek as <-;
-          unfold serialize_remoting; rewrite Hb, Es, Er; cbn [mbind fst snd]; rewrite <- ?app_assoc; reflexivity.
+          unfold serialize_remoting; rewrite Hb; cbn [mbind fst snd]; rewrite <- ?app_assoc; reflexivity.
       + unfold Envelope.dec_envelope. pose proof (name_of_len32 k).
         do 7 rt_step. rewrite kind_of_name_of. unfold drun, deserialize_remoting.
         assert (Hfb : (length (b ++ []) < S (length b))%nat) by (rewrite app_nil_r; lia).
@@ -86,7 +86,7 @@ Section Envelope.
       exists (put_lp4 d ++ put_lp4 [] ++ put_bool sys ++
               put_lp4 (fst (strs_of s)) ++ put_lp4 (snd (strs_of s)) ++ put_lp4 (fst (strs_of r)) ++ put_lp4 (snd (strs_of r))).
       split.
-      + unfold Envelope.enc_envelope. cbn [e_system e_sender e_receiver e_msg]. rewrite Hc, He, Es, Er.
+      + unfold Envelope.enc_envelope. cbn [e_system e_sender e_receiver e_msg]. rewrite Hc, He.
         cbn [mbind fst snd]. rewrite <- ?app_assoc. reflexivity.
       + unfold Envelope.dec_envelope. assert (len32 []) by (vm_compute; reflexivity).
         do 7 rt_step. rewrite kind_of_name_nil, Hc. unfold drun. rewrite Hdd. reflexivity.
@@ -95,9 +95,9 @@ Section Envelope.
   (** the receiver's reading of the four strings gives the refs back (a present ref made of two
       empty strings is the one exception: it reads back as absent) *)
   Lemma ref_of_strs_of r :
-    valid_ref r -> r <> RRef [] [] -> ref_of_strs (fst (strs_of r)) (snd (strs_of r)) = r.
+    r <> RTypedNil -> r <> RRef [] [] -> ref_of_strs (fst (strs_of r)) (snd (strs_of r)) = r.
   Proof.
-    destruct r as [|a p|]; cbn; intros H Hne; try contradiction; [reflexivity|].
+    destruct r as [|a p|]; cbn; intros H Hne; try congruence.
     unfold ref_of_strs. destruct a, p; cbn; try reflexivity. congruence.
   Qed.
 
@@ -121,51 +121,47 @@ Section Envelope.
       + intros [= <-] [X|X]; discriminate.
   Qed.
 
-  (** encoding an envelope returns a value or an error unless a ref is a typed nil pointer *)
-  Theorem enc_envelope_safe (e : envelope U) er :
-    e_sender U e <> RTypedNil -> e_receiver U e <> RTypedNil -> enc_envelope e = MErr er -> ~ bad er.
+  (** encoding an envelope returns a value or an error *)
+  Theorem enc_envelope_safe (e : envelope U) er : enc_envelope e = MErr er -> ~ bad er.
   Proof.
-    destruct e as [sys s r m]. cbn [e_sender e_receiver]. intros Hs Hr. unfold Envelope.enc_envelope.
+    destruct e as [sys s r m]. unfold Envelope.enc_envelope.
     cbn [e_system e_sender e_receiver e_msg]. intros H.
-    apply mbind_inv in H as [H|(pn & _ & H)].
-    - assert (Hreg : forall k, (let*m b := serialize_remoting U has_codec cenc m in MOk (b, name_of k)) = MErr er -> ~ bad er).
-      { intros k H'. apply mbind_inv in H' as [H'|(b & _ & H')]; [|discriminate].
-        unfold serialize_remoting in H'. apply mbind_inv in H' as [H'|(b & _ & H')]; [|discriminate].
-        apply (enc_body_safe U has_codec cenc cenc_total m er H'). }
-      destruct m; cbn [kind_of] in H; try (apply (Hreg _ H)).
-      destruct has_codec; [|injection H as <-; intros [X|X]; discriminate].
-      apply mbind_inv in H as [H|(d & _ & H)]; [apply (cenc_total _ _ H)|discriminate].
-    - apply mbind_inv in H as [H|(ss & _ & H)]; [destruct s; cbn in H; try discriminate; congruence|].
-      apply mbind_inv in H as [H|(rr & _ & H)]; [destruct r; cbn in H; try discriminate; congruence|discriminate].
+    apply mbind_inv in H as [H|(pn & _ & H)]; [|discriminate].
+    assert (Hreg : forall k, (let*m b := serialize_remoting U has_codec cenc m in MOk (b, name_of k)) = MErr er -> ~ bad er).
+    { intros k H'. apply mbind_inv in H' as [H'|(b & _ & H')]; [|discriminate].
+      unfold serialize_remoting in H'. apply mbind_inv in H' as [H'|(b & _ & H')]; [|discriminate].
+      apply (enc_body_safe U has_codec cenc cenc_total m er H'). }
+    destruct m; cbn [kind_of] in H; try (apply (Hreg _ H)).
+    destruct has_codec; [|injection H as <-; intros [X|X]; discriminate].
+    apply mbind_inv in H as [H|(d & _ & H)]; [apply (cenc_total _ _ H)|discriminate].
   Qed.
-  Theorem enc_envelope_typed_nil sys r (m : msg) b :
-    serialize_remoting U has_codec cenc m = MOk b -> kind_of U m <> None ->
-    enc_envelope {| e_system := sys; e_sender := RTypedNil; e_receiver := r; e_msg := m |} = MErr MECrash.
-  Proof.
-    intros Hb Hk. unfold Envelope.enc_envelope. cbn [e_system e_sender e_receiver e_msg].
-    destruct m; cbn [kind_of] in Hk |- *; try congruence; rewrite Hb; reflexivity.
-  Qed.
+
 End Envelope.
 
-(** * nested messages: every level copies its body, so the allocation is quadratic in the depth *)
-Definition nest_name : bytes := name_of K_Scheduler.
-Fixpoint nest (d : nat) : bytes :=   (* body of a SchedulerMessage wrapping d-1 further SchedulerMessages around a PingMessage *)
-  match d with
-  | O => put_i64 0
-  | S d' => put_lp4 (nest d') ++ put_lp4 (match d' with O => name_of K_Ping | _ => nest_name end) ++ put_lp4 []
-  end.
-Definition no_codec_dec (k : kind) : dec (msg unit) :=
-  deserialize_remoting unit false (fun _ => MErr MENoCodec) (fun _ => None) (fun _ _ => MErr MEBadRef) k.
-Definition decodes_fully {A} (r : mres (A * bytes)) : bool := match r with MOk (_, []) => true | _ => false end.
-Lemma nest_check :
-  (N.of_nat (length (nest 600)) =? 16803) && decodes_fully (snd (no_codec_dec K_Scheduler (nest 600))) &&
-  (N.of_nat (length (nest 600)) + 4194304 <? fst (no_codec_dec K_Scheduler (nest 600))) = true.
-Proof. vm_compute. reflexivity. Qed.
-Lemma nest_alloc_witness :
-  N.of_nat (length (nest 600)) = 16803 /\
-  decodes_fully (snd (no_codec_dec K_Scheduler (nest 600))) = true /\
-  N.of_nat (length (nest 600)) + 4194304 < fst (no_codec_dec K_Scheduler (nest 600)).
-Proof.
-  pose proof nest_check as H. apply andb_true_iff in H as [H H3]. apply andb_true_iff in H as [H1 H2].
-  split; [apply N.eqb_eq; exact H1|]. split; [exact H2|apply N.ltb_lt; exact H3].
-Qed.
+Section EnvelopeAlloc.
+  Variable U : Type.
+  Variable has_codec : bool.
+  Variable cdec : bytes -> mres U.
+  Variable qerr : Z -> option bytes.
+  Variable newref : bytes -> bytes -> mres (bytes * bytes).
+  Notation dec_envelope := (dec_envelope U has_codec cdec qerr newref).
+
+  (** allocation: the payload and the strings are copied once, the payload is then decoded in place *)
+  Theorem dec_envelope_linb : linb 11 K_map dec_envelope.
+  Proof.
+    intros bs. unfold Envelope.dec_envelope.
+    unfold dbind at 1, d_str. destruct (rd_lp4 bs) as [[data b1]|] eqn:E1; [apply rd_lp4_len in E1|lia].
+    unfold dbind at 1. destruct (rd_lp4 b1) as [[name b2]|] eqn:E2; [apply rd_lp4_len in E2|lia].
+    unfold dbind at 1, d_bool, dlift, rd_bool, rd_u8. destruct (rd_uint 1 b2) as [[sy b3]|] eqn:E3; cbn [bind mlift]; [apply rd_uint_len in E3|lia].
+    unfold dbind at 1. destruct (rd_lp4 b3) as [[sa b4]|] eqn:E4; [apply rd_lp4_len in E4|lia].
+    unfold dbind at 1. destruct (rd_lp4 b4) as [[sp b5]|] eqn:E5; [apply rd_lp4_len in E5|lia].
+    unfold dbind at 1. destruct (rd_lp4 b5) as [[ra b6]|] eqn:E6; [apply rd_lp4_len in E6|lia].
+    unfold dbind. destruct (rd_lp4 b6) as [[rp b7]|] eqn:E7; [apply rd_lp4_len in E7|lia].
+    destruct (kind_of_name name) as [k|].
+    - pose proof (deserialize_linb U has_codec cdec qerr newref k data) as Hd.
+      destruct (deserialize_remoting U has_codec cdec qerr newref k data) as [a [[m t]|e]]; lia.
+    - destruct has_codec; [destruct (cdec data)|]; lia.
+  Qed.
+End EnvelopeAlloc.
+
+
